@@ -36,7 +36,7 @@ func readDefaults(bin string) (Defaults, error) {
 	var d Defaults
 	cmd := exec.Command(bin, "-h")
 	out, _ := cmd.CombinedOutput()
-	s := string(out)
+	s := "\n" + string(out)
 	get := func(name string) (string, bool) {
 		i := strings.Index(s, "\n  -"+name)
 		if i < 0 {
@@ -242,6 +242,26 @@ func runBinary(bin, dir string, env []string, args ...string) (stdout, stderr []
 	return
 }
 
+// binStdin, when set, names the file (relative to the run directory) fed to the standard input of
+// the real binaries, and to os.Stdin of the in-process pipeline.
+var binStdin string
+
+// runPipelineStdin runs the in-process pipeline with os.Stdin reading the case's stdin file.
+func runPipelineStdin(d Defaults, flagArgs []string) *Run {
+	if binStdin == "" {
+		return runPipeline(d, flagArgs)
+	}
+	f, err := os.Open(binStdin)
+	if err != nil {
+		panic(err)
+	}
+	defer f.Close()
+	old := os.Stdin
+	os.Stdin = f
+	defer func() { os.Stdin = old }()
+	return runPipeline(d, flagArgs)
+}
+
 // binTimeout bounds one run of a real binary; a binary that does not exit is reported with
 // code -2 (the property promises an answer under every GOMAXPROCS).
 var binTimeout = 15 * time.Second
@@ -261,6 +281,12 @@ func runBinaryOnce(bin, dir string, env []string, args ...string) (stdout, stder
 	cmd.Env = append(os.Environ(), env...)
 	var o, e bytes.Buffer
 	cmd.Stdout, cmd.Stderr = &o, &e
+	if binStdin != "" {
+		if f, err := os.Open(filepath.Join(dir, binStdin)); err == nil {
+			defer f.Close()
+			cmd.Stdin = f
+		}
+	}
 	err := cmd.Run()
 	if ctx.Err() != nil {
 		binHangs++
